@@ -15,7 +15,7 @@ except ImportError:  # py<3.11
     import sre_constants as sre_c
 
 
-def _char_for_in(items, avoid_space=True):
+def _char_for_in(items, avoid_space=True, pick=0):
     negate = False
     pos = []
     for (op, av) in items:
@@ -33,7 +33,7 @@ def _char_for_in(items, avoid_space=True):
                         sre_c.CATEGORY_NOT_SPACE: "x", sre_c.CATEGORY_NOT_DIGIT: "d",
                         sre_c.CATEGORY_NOT_WORD: "-"}.get(av, "x"))
     if not negate:
-        return pos[0] if pos else "x"
+        return pos[pick % len(pos)] if pos else "x"
     for c in "xq7Z-_.":
         if c not in pos:
             ok = True
@@ -52,7 +52,9 @@ def _char_for_in(items, avoid_space=True):
     return "x"
 
 
-def _gen(parsed, variant=0):
+def _gen(parsed, variant=0, pick=0):
+    """variant selects the alternative of every branch and lengthens repeats; pick selects the member of
+    every positive character class.  (0, 0) is the historical behaviour."""
     out = []
     for (op, av) in parsed:
         if op == sre_c.LITERAL:
@@ -62,18 +64,18 @@ def _gen(parsed, variant=0):
         elif op == sre_c.ANY:
             out.append("x")
         elif op == sre_c.IN:
-            out.append(_char_for_in(av))
+            out.append(_char_for_in(av, pick=pick))
         elif op == sre_c.BRANCH:
             alts = av[1]
-            out.append(_gen(alts[variant % len(alts)], variant))
+            out.append(_gen(alts[variant % len(alts)], variant, pick))
         elif op == sre_c.SUBPATTERN:
-            out.append(_gen(av[3], variant))
+            out.append(_gen(av[3], variant, pick))
         elif op in (sre_c.MAX_REPEAT, sre_c.MIN_REPEAT):
             lo, hi, sub = av
             n = lo
             if variant and hi > lo:
                 n = lo + 1
-            out.append("".join(_gen(sub, variant) for _ in range(n)))
+            out.append("".join(_gen(sub, variant, pick) for _ in range(n)))
         elif op == sre_c.AT:
             pass
         elif op in (sre_c.ASSERT, sre_c.ASSERT_NOT):
@@ -109,6 +111,42 @@ def gen(regex: str, full=True, flags=0):
         if ok:
             return s
     return None
+
+
+def gen_variants(regex: str, full=False, flags=0, variants=12, picks=2):
+    """Distinct strings in the language of regex (fullmatch if full else search), one per (branch alternative /
+    repeat length, character-class member) choice; each is validated with re, so the list may be shorter than
+    variants*picks but never contains a non-matching string.  [] if nothing could be produced."""
+    try:
+        parsed = sre_parse.parse(regex, flags)
+    except Exception:
+        return []
+    out = []
+    for variant in range(variants):
+        for pick in range(picks):
+            try:
+                s = _gen(parsed, variant, pick)
+            except Exception:
+                s = None
+            if s is None or s in out:
+                continue
+            try:
+                ok = re.fullmatch(regex, s, flags) if full else re.search(regex, s, flags)
+            except re.error:
+                return out
+            if ok:
+                out.append(s)
+    return out
+
+
+def anchored_at_start(regex: str, flags=0) -> bool:
+    """True if the regex can only match at the beginning of the string (starts with ^ or \\A)."""
+    try:
+        parsed = sre_parse.parse(regex, flags)
+    except Exception:
+        return False
+    return bool(len(parsed)) and parsed[0][0] == sre_c.AT and parsed[0][1] in (sre_c.AT_BEGINNING,
+                                                                              sre_c.AT_BEGINNING_STRING)
 
 
 # -------- rule rows -----------------------------------------------------------------------------------
